@@ -26,6 +26,8 @@ class VFileHistory:
             for lens in seqs[kind] if tier == "quick" else seqs[kind] + [[1, 1, 1, 1], [2295, 2295], [765, 766]]:
                 out.append({"id": "history/%s/%s" % (kind, ",".join(map(str, lens))), "k": "history", "kind": kind, "lens": lens,
                             "bounded": "%s history, additions of %s bytes with save/re-open after each" % (kind, lens)})
+            out.append({"id": "history/%s/same-names" % kind, "k": "history", "kind": kind, "lens": [3, 4, 5, 6], "names": ["AA", "BB", "AA", "BB"],
+                        "bounded": "%s history re-using file names" % kind})
         for shape in ("cas-small", "cas-161280", "cas-big-zero", "cas-big-ff", "cas-big-mixed", "dsk-one", "dsk-empty"):
             out.append({"id": "sniff/%s" % shape, "k": "sniff", "shape": shape, "bounded": "one concrete image"})
         return out
@@ -98,7 +100,7 @@ class VFileHistory:
                 # long disk files: concrete contents (a failing disk reader makes the tool scan the whole image with the
                 # cassette reader, which forks on every symbolic byte); contents of long files are covered by disk_layout
                 data = [(11 * i + 3 * j + (i >> 8)) % 256 for i in range(L)]
-            name = "FILE%d" % j
+            name = cell["names"][j] if cell.get("names") else "FILE%d" % j
             load, exe = 0x1000 + j, 0x2000 + j
             f = F.coco_file(name, 2, 0, load, exe, list(data), extension="BIN")
             try:
